@@ -276,17 +276,18 @@ func (commit *Commit) FirstPrecommit() *Vote {
 }
 
 func (commit *Commit) Height() int64 {
-	if len(commit.Precommits) == 0 {
-		return 0
+	// NOTE: all precommits may be nil (e.g. in a commit built by a malicious proposer).
+	if first := commit.FirstPrecommit(); first != nil {
+		return first.Height
 	}
-	return commit.FirstPrecommit().Height
+	return 0
 }
 
 func (commit *Commit) Round() int64 {
-	if len(commit.Precommits) == 0 {
-		return 0
+	if first := commit.FirstPrecommit(); first != nil {
+		return first.Round
 	}
-	return commit.FirstPrecommit().Round
+	return 0
 }
 
 func (commit *Commit) Type() byte {
